@@ -13,7 +13,7 @@ import z3
 
 from pyvc.core import EngineError
 from pyvc.interp import Interp, Spec, PosReal
-from pyvc.models import (Namespace, External, EffectLog, Lock, SymSeq, SymMap, TReal, TAtom, TVal,
+from pyvc.models import (Ty, Namespace, External, EffectLog, Lock, SymSeq, SymMap, TReal, TAtom, TVal,
                          TTuple, TInt, TSort)
 from pyvc.values import Atom, Val, Model, ModelClass, PyObj, ExcVal, PyRaise, Builtin, INF
 from .common import Clock, pyobj
@@ -217,9 +217,33 @@ class KeyIter(Model):
 
 
 class CacheItems(Model):
-  """cache.items(): consumed by counts / watermarks / MaxStrategy through their contracts."""
+  """cache.items(): consumed by counts / watermarks / MaxStrategy through their contracts; a
+  comprehension over it is a comprehension over the key list with each key paired with a live view
+  of its inner dict."""
   def __init__(self, data):
     self.data = data
+
+  def py_listcomp(self, ip, node, fr):
+    ks = self.data.keys_seq(ip)
+    pairs = SymSeq(_TItemRef(self.data), ks.term, 'items')
+    pairs.birth = ip.ctx.counter
+    out = pairs.py_listcomp(ip, node, fr)
+    out.keys_of_items = ks
+    return out
+
+
+class _TItemRef(Ty):
+  """element type of cache.items(): a key, decoded as the pair (key, view of data[key])"""
+  sort = Atom
+
+  def __init__(self, data):
+    self.data = data
+
+  def dec(self, term):
+    return (term, InnerProxy(self.data, term))
+
+  def enc(self, ip, v):
+    return v[0] if isinstance(v, tuple) else v
 
 
 class InnerProxy(Model):
